@@ -77,6 +77,7 @@ void __wrap_free(void* p)
 /* control (called through the executor's C command; x_alloc_active is 0 while these run... they are plain calls, so guard) */
 size_t x_alloc_reset(void) { x_alloc_active = 0; n_alloc = n_free = fail_at = n_failed = 0; ntrk = 0; loglen = 0; return 0; }
 size_t x_alloc_fail_at(size_t n) { fail_at = n; return 0; }
+size_t x_alloc_get_fail_at(void) { return fail_at; }
 size_t x_alloc_count(void) { return n_alloc; }
 size_t x_alloc_frees(void) { return n_free; }
 size_t x_alloc_live(void) { return ntrk; }
